@@ -43,8 +43,9 @@ CaseCmpAllowed(a, b) == LET la == Lower(a)
                             lb == Lower(b)
                             d == FirstDiff(la, lb) IN
                         IF d <= MinN(Len(a), Len(b)) /\ (la[d] >= 128 \/ lb[d] >= 128) THEN {-1, 1} ELSE {Cmp(la, lb)}
-\* today's implementation compares tolower(signed char) values
-SChar(b) == IF b >= 128 THEN b - 256 ELSE b
+\* today's implementation compares tolower((int)(signed char)b) values; glibc's table maps -128..-2 to 128..254 and -1 (EOF) to -1,
+\* so only byte 255 sorts below everything else
+SChar(b) == IF b = 255 THEN -1 ELSE b
 CaseCmpImpl(a, b) == LET la == Lower(a)
                          lb == Lower(b)
                          d == FirstDiff(la, lb) IN
